@@ -40,7 +40,7 @@ ASSUMPTIONS = ['with OPEN/CLOSE/CLEAR qualifiers only the explicit-SELECT oracle
 
 SUMMARY = [None, 'units', 'cost']
 PATTERNS = ['Bank', 'Broker', '^Assets', 'Food$', 'Card|Loan', 'Expenses:Food', 'checking', '[BC]', 'Income:.*', '', '.',
-            'Sub', 'Nope', 'a"b']
+            'Sub', 'Nope', 'a"b', r'Bank:\w+$', r'^\w+:Food\b', r'Assets\b', r'\bFood', r'Loan:\w', r'Broker(:|$)', r'\.']
 ENTRY_PREDICATES = st.one_of(
     st.tuples(st.just('type='), st.sampled_from(['transaction', 'open', 'close', 'price', 'note', 'event', 'document', 'query',
                                                  'custom', 'commodity'])),
@@ -51,6 +51,8 @@ ENTRY_PREDICATES = st.one_of(
     st.tuples(st.just('has_account'), st.sampled_from(['Food', 'Broker', 'Income'])),
     st.tuples(st.just('tag'), st.sampled_from(['trip', 'food', 'work'])),
     st.tuples(st.just('typein'), st.just(['transaction', 'price', 'note'])),
+    st.tuples(st.just('tagsnull'), st.booleans()),
+    st.tuples(st.just('linksnull'), st.booleans()),
 )
 
 
@@ -62,6 +64,8 @@ def entry_ir(p):
         return ['in', ['col', 'type'], ['list', [['const', 'str', x] for x in v]]]
     if k == 'narration~':
         return ['match', ['col', 'narration'], ['const', 'str', v]]
+    if k in ('tagsnull', 'linksnull'):
+        return ['isnull' if v else 'isnotnull', ['col', k[:-4]]]
     return pred_ir(p)
 
 
@@ -85,6 +89,9 @@ def entry_py(p, e):
         return any(re.search(v, a, re.IGNORECASE) for a in getters.get_entry_accounts(e))
     if k == 'tag':
         return txn and v in (e.tags or ())
+    if k in ('tagsnull', 'linksnull'):
+        # only transactions have tags and links in the entries table
+        return (not txn) == v
     raise ValueError(k)
 
 
